@@ -14,7 +14,9 @@ is registered and the message handed over.  Between `set` and `bind` the instanc
 yet bound to a protocol.  Core-only. -/
 namespace C11
 
-inductive Pc where | lookup | found | set | bind | fin deriving DecidableEq, Repr
+/-- `flushed`: a parked message that `checkPendingMessages` gives to `TransmitMsg` again (it starts with the
+lookup, like `lookup`); `parked`: in `o.pendingMsg`, waiting for the tree -/
+inductive Pc where | lookup | flushed | found | set | bind | parked | fin deriving DecidableEq, Repr
 
 structure Th where
   tok : Nat
@@ -25,6 +27,7 @@ structure Th where
 structure St where
   present : Bool := false       -- the tree store holds the tree
   armed : Bool := false         -- a removal is scheduled (`cancellations[id]`)
+  requested : Bool := false     -- the slot is registered with a nil tree (`requestTree`)
   used : Bool := false          -- ghost: some instance has used the tree
   live : List Nat := []         -- `o.instances` (tokens)
   settled : List Nat := []      -- ghost: live instances whose creation has completed (`Set` done)
@@ -44,6 +47,7 @@ inductive Act where
   | localStart (tok : Nat)    -- `CreateProtocol`: list the instance, then `RegisterTree`
   | peerReq                   -- a peer asks for the tree (`handleRequestTree`: `treeStorage.Get`, no refresh)
   | doneRefused (tok : Nat)   -- `Done()` with an `OnDoneCallback` that returns false: nothing happens
+  | treeResp                  -- the tree arrives from the peer that was asked for it
   deriving Repr
 
 def at_ (p : Pc) (t : Th) : Bool := t.pc == p
@@ -54,11 +58,20 @@ def regTok (tok : Nat) (t : Th) : Bool := (t.pc == .set || t.pc == .bind) && t.t
 /-- thread `t` holds `transmitMux` (local starts, `m = 0`, do not take it) -/
 def holdsMux (t : Th) : Bool := (t.pc == .set || t.pc == .bind) && t.m != 0
 
+/-- `checkPendingMessages`: every parked message goes through `TransmitMsg` again -/
+def flushT (t : Th) : Th := if t.pc = .parked then { t with pc := .flushed } else t
+def flushAll (l : List Th) : List Th := l.map flushT
+
+/-- `getAndRefresh`, and on a miss `requestTree`: park the message, register the slot, ask the sender -/
+def lookupStep (s : St) (i : Nat) (t : Th) : St :=
+  if s.present then { s with armed := false, thr := s.thr.set i { t with pc := .found } }
+  else { s with armed := false, requested := true, thr := s.thr.set i { t with pc := .parked } }
+
 def stepTh (s : St) (i : Nat) (t : Th) : Option St :=
   match t.pc with
-  | .lookup =>
-      some { s with armed := false,
-                    thr := s.thr.set i { t with pc := if s.present then .found else .fin } }
+  | .lookup => some (lookupStep s i t)
+  | .flushed => some (lookupStep s i t)
+  | .parked => none
   | .found =>
       if 0 < s.thr.countP holdsMux then none      -- `transmitMux` is held by a creating thread
       else if t.tok ∈ s.doneToks then
@@ -70,9 +83,11 @@ def stepTh (s : St) (i : Nat) (t : Th) : Option St :=
       else
         some { s with live := s.live ++ [t.tok], used := true, thr := s.thr.set i { t with pc := .set } }
   | .set =>
-      some { s with present := true, armed := false,
+      -- `Set` (an arrival: followed by the flush of what was parked since its lookup; a local start:
+      -- `RegisterTree` = `Set` + flush)
+      some { s with present := true, armed := false, requested := false,
                     settled := if t.tok ∈ s.live then s.settled ++ [t.tok] else s.settled,
-                    thr := s.thr.set i { t with pc := .bind } }
+                    thr := flushAll (s.thr.set i { t with pc := .bind }) }
   | .bind =>
       some { s with constructed := s.constructed ++ [t.tok],
                     handed := if t.m = 0 then s.handed else s.handed ++ [(t.tok, t.m)],
@@ -95,7 +110,13 @@ def step (s : St) : Act → Option St
       -- `Done()` once more on a finished instance: `nodeDelete` finds it "already gone" and returns
       else if tok ∈ s.doneToks then some s
       else none
-  | .expire => if s.armed then some { s with present := false, armed := false } else none
+  | .expire => if s.armed then some { s with present := false, armed := false, requested := false } else none
+  -- the peer's `ResponseTree` (`handleSendTree`): accepted only for a requested, not yet stored tree;
+  -- `RegisterTree` = `Set` + flush
+  | .treeResp =>
+      if s.requested ∧ s.present = false then
+        some { s with present := true, armed := false, requested := false, thr := flushAll s.thr }
+      else none
   | .localStart tok =>
       if tok ∈ s.live ∨ tok ∈ s.doneToks ∨ tok ∈ s.constructed then none
       else some { s with live := s.live ++ [tok], used := true,
@@ -103,6 +124,25 @@ def step (s : St) : Act → Option St
   | .peerReq => some { s with peerAsked := s.peerAsked + 1,
                               peerAnswered := if s.present then s.peerAnswered + 1 else s.peerAnswered }
   | .doneRefused tok => if tok ∈ s.settled ∧ s.thr.countP (regTok tok) = 0 then some s else none
+
+/-- the creation path as it was before /repo fafcac0: an arrival's `Set` does not flush -/
+def stepOld (s : St) : Act → Option St
+  | .thread i =>
+      match s.thr[i]? with
+      | some t =>
+        if t.pc = .set ∧ t.m ≠ 0 then
+          some { s with present := true, armed := false, requested := false,
+                        settled := if t.tok ∈ s.live then s.settled ++ [t.tok] else s.settled,
+                        thr := s.thr.set i { t with pc := .bind } }
+        else stepTh s i t
+      | none => none
+  | a => step s a
+
+def runOld (s : St) : List Act → St
+  | [] => s
+  | a :: as => match stepOld s a with
+      | some s' => runOld s' as
+      | none => runOld s as
 
 def run (s : St) : List Act → St
   | [] => s
@@ -121,7 +161,7 @@ def init : State := {}
 def sortNat (l : List Nat) : List Nat := (l.toArray.qsort (· < ·)).toList
 
 def obs (x : St) : String :=
-  let tree := (if x.present then "present" else "absent") ++ (if x.armed then "+armed" else "")
+  let tree := (if x.present then "present" else if x.requested then "requested" else "absent") ++ (if x.armed then "+armed" else "")
   s!"tree={tree} live={Util.showNatList (sortNat x.live)} done={Util.showNatList (sortNat x.doneToks)} constructed={Util.showNatList (sortNat x.constructed)} handed={x.handed.length}"
 
 def findThr (x : St) (tok m : Nat) : Option Nat :=
@@ -130,6 +170,7 @@ def findThr (x : St) (tok m : Nat) : Option Nat :=
 
 def pcName : Pc → String
   | .lookup => "lookup" | .found => "found" | .set => "set" | .bind => "ctor" | .fin => "fin"
+  | .flushed => "flushed" | .parked => "parked"
 
 /-- let thread i go on through `Set` (and, unless `stopAtCtor`, through the constructor) -/
 def finish (x : St) (i : Nat) (stopAtCtor : Bool) : St :=
@@ -140,6 +181,13 @@ def finish (x : St) (i : Nat) (stopAtCtor : Bool) : St :=
   match x1.thr[i]? with
   | some t => if t.pc = .bind then (C11.step x1 (.thread i)).getD x1 else x1
   | none => x1
+
+/-- the flush goroutine gives the (one) flushed message to `TransmitMsg`: its lookup happens at once and it
+stops at the hook point after it -/
+def relook (x : St) : St :=
+  (List.range x.thr.length).foldl (fun acc i => match acc.thr[i]? with
+    | some t => if t.pc = .flushed then (C11.step acc (.thread i)).getD acc else acc
+    | none => acc) x
 
 /-- ops: `arrive <tok> <m>` (thread runs to its hook point after the lookup), `thread <tok> <m>`
 (the `transmitMux` region to its end), `done <tok>`, `wait` (longer than the grace period: the
@@ -166,7 +214,7 @@ def step (st : State) (toks : List String) : State × String :=
         match C11.step x (.thread i) with
         | some x1 =>
           -- a creating thread goes on through `Set`, the constructor and the hand-over
-          let x2 := finish x1 i false
+          let x2 := relook (finish x1 i false)
           ({ st with s := x2 }, s!"pc={(x2.thr[i]?.map (fun t => pcName t.pc)).getD "?"} {obs x2}")
         | none => (st, "disabled")
       | none => (st, "disabled")
@@ -179,7 +227,7 @@ def step (st : State) (toks : List String) : State × String :=
       | some i =>
         match C11.step x (.thread i) with
         | some x1 =>
-          let x2 := finish x1 i true
+          let x2 := relook (finish x1 i true)
           ({ st with s := x2 }, s!"pc={(x2.thr[i]?.map (fun t => pcName t.pc)).getD "?"} {obs x2}")
         | none => (st, "disabled")
       | none => (st, "disabled")
@@ -208,6 +256,11 @@ def step (st : State) (toks : List String) : State × String :=
     | none => (st, obs x)
   -- a peer asks for the tree (`handleRequestTree`): answered iff present; nothing else changes — in
   -- particular a scheduled removal stays scheduled
+  -- the peer's answer to the tree request (refused unless the tree is requested and not stored)
+  | ["treeresp"] =>
+    match C11.step x .treeResp with
+    | some x1 => let x2 := relook x1; ({ st with s := x2 }, "accepted " ++ obs x2)
+    | none => (st, "refused " ++ obs x)
   | ["peerreq"] =>
     match C11.step x .peerReq with
     | some x1 => ({ st with s := x1 }, (if x1.peerAnswered > x.peerAnswered then "answered " else "ignored ") ++ obs x1)
@@ -237,7 +290,7 @@ def step (st : State) (toks : List String) : State × String :=
       match C11.step x (.localStart tok) with
       | some x1 =>
         let i := x1.thr.length - 1
-        let x2 := finish x1 i false
+        let x2 := relook (finish x1 i false)
         ({ st with s := x2 }, obs x2)
       | none => (st, "disabled")
     | none => (st, "bad-op")
